@@ -139,6 +139,35 @@ def generate(repo, ws, write_if_changed):
     emit("row_namespace_data_c06.rs", slice_file(repo, "types/src/row_namespace_data.rs", [
         dict(kind="fn", name="verify", impl=r"^impl RowNamespaceData$", wrap="impl RowNamespaceData"),
     ]))
+    emit("peer_tracker_c39.rs", slice_file(repo, "node/src/peer_tracker.rs", [
+        dict(kind="const", name="EXPIRED_AFTER"),
+        dict(kind="struct", name="PeerTracker"),
+        dict(kind="struct", name="PeerTrackerInfo", rewrite=[("#[cfg_attr(feature = \"uniffi\", derive(uniffi::Record))]\n#[derive(Debug, Clone, PartialEq, Eq, Default, Serialize, Deserialize)]", "#[derive(Debug, Clone, PartialEq, Eq, Default)] // serde/uniffi derives removed by the slicer")]),
+        dict(kind="struct", name="Peer"),
+        dict(kind="struct", name="ConnectionInfo"),
+        dict(kind="enum", name="NodeKind"),
+        dict(kind="fn", name="is_full", impl=r"^impl NodeKind$", wrap="impl NodeKind"),
+        dict(kind="fn", name="new", impl=r"^impl Peer$", wrap="impl Peer"),
+        dict(kind="fn", name="id", impl=r"^impl Peer$", wrap="impl Peer"),
+        dict(kind="fn", name="is_connected", impl=r"^impl Peer$", wrap="impl Peer"),
+        dict(kind="fn", name="is_trusted", impl=r"^impl Peer$", wrap="impl Peer"),
+        dict(kind="fn", name="is_protected", impl=r"^impl Peer$", wrap="impl Peer"),
+        dict(kind="fn", name="is_protected_with_tag", impl=r"^impl Peer$", wrap="impl Peer"),
+        dict(kind="fn", name="is_archival", impl=r"^impl Peer$", wrap="impl Peer"),
+        dict(kind="fn", name="is_full", impl=r"^impl Peer$", wrap="impl Peer"),
+        dict(kind="fn", name="info", impl=r"^impl PeerTracker$", wrap="impl PeerTracker"),
+        dict(kind="fn", name="peer", impl=r"^impl PeerTracker$", wrap="impl PeerTracker"),
+        dict(kind="fn", name="add_peer_id", impl=r"^impl PeerTracker$", wrap="impl PeerTracker"),
+        dict(kind="fn", name="set_trusted", impl=r"^impl PeerTracker$", wrap="impl PeerTracker"),
+        dict(kind="fn", name="protect", impl=r"^impl PeerTracker$", wrap="impl PeerTracker"),
+        dict(kind="fn", name="unprotect", impl=r"^impl PeerTracker$", wrap="impl PeerTracker"),
+        dict(kind="fn", name="protected_len", impl=r"^impl PeerTracker$", wrap="impl PeerTracker"),
+        dict(kind="fn", name="add_connection", impl=r"^impl PeerTracker$", wrap="impl PeerTracker"),
+        dict(kind="fn", name="remove_connection", impl=r"^impl PeerTracker$", wrap="impl PeerTracker"),
+        dict(kind="fn", name="mark_as_archival", impl=r"^impl PeerTracker$", wrap="impl PeerTracker"),
+        dict(kind="fn", name="recount_peer_tracker_info", impl=r"^impl PeerTracker$", wrap="impl PeerTracker"),
+        dict(kind="fn", name="gc", impl=r"^impl PeerTracker$", wrap="impl PeerTracker"),
+    ]))
     emit("commitment_c12.rs", slice_file(repo, "types/src/blob/commitment.rs", [
         dict(kind="fn", name="merkle_mountain_range_sizes"),
         dict(kind="fn", name="blob_min_square_size"),
